@@ -95,6 +95,10 @@ class Stats(object):
 
 def run_case(cl, case, kf_open, strict=False):
     ctx = Ctx(strict=strict, kf_open=kf_open)
+    try:
+        ctx.form = core.call_form(case)
+    except Exception:  # noqa  (a case that cannot be canonicalised keeps the keyword spelling)
+        ctx.form = "kw"
     with warnings.catch_warnings():
         warnings.simplefilter("ignore")
         with _np_quiet():
